@@ -536,7 +536,27 @@ func sortedAfter(p *Prog, mr mapRange, ap *ssa.Call) (bool, []*ssa.Call) {
 			continue
 		}
 		first := s.Instrs[0]
-		ok, wit := mustPassFromBlock(first, isSort)
+		// a return that does not hand the slice out (`if len(ret) == 0 { return nil, err }`) needs no sort
+		noSlice := func(r *ssa.Return) bool {
+			for _, res := range r.Results {
+				if isSame(res) || isSame(canon(res)) {
+					return false
+				}
+				if _, isSl := res.Type().Underlying().(*types.Slice); isSl && !isNilConst(res) {
+					return false
+				}
+			}
+			return true
+		}
+		ok, wit := true, ssa.Instruction(nil)
+		if !isSort(first) {
+			if r, isRet := first.(*ssa.Return); isRet {
+				ok = noSlice(r)
+				wit = r
+			} else {
+				ok, wit = mustPassOK(first, isSort, noSlice, nil)
+			}
+		}
 		if !ok {
 			if os.Getenv("SLUGCHECK_DEBUG") != "" {
 				fmt.Fprintf(os.Stderr, "sortedAfter: %s exit block %d first %v storeAddr %v witness %v\n", fn, s.Index, first, storeAddr, wit)
